@@ -551,13 +551,19 @@ def config_reset_forgets():
                          'plugins/Config: `%s` is not followed by registry._cache.pop(changroup._name, None)' % src)
                     found += 1
     need(found == 3 and ast.unparse(cp).count('inherited=True') == 3, 'plugins/Config: expected three reset statements, found %d' % found)
+    # which parent each reset copies from, in source order: <var>.:net.#chan <- its parent <var>.:net (netgroup);
+    # <var>.#chan <- the general value (group); <var>.:net <- the general value (group)
+    got = [v for (v, _) in config_reset_sites()]
+    need(got == ['netgroup.value', 'group.value', 'group.value'],
+         'plugins/Config: the reset commands re-seed from %r (expected netgroup.value for <var>.:net.#chan, group.value for <var>.#chan and <var>.:net)' % got)
     return True
 
 
 def config_reset_sites():
     """non-strict companion of config_reset_forgets for the harness, which re-states the reset commands: for the three
-    reset statements in source order (reset channel: <var>.:net.#chan, <var>.#chan; reset network: <var>.:net) whether the
-    statement is followed by registry._cache.pop(changroup._name, None).  Never raises."""
+    reset statements in source order (reset channel: <var>.:net.#chan, <var>.#chan; reset network: <var>.:net) the
+    expression the node is re-seeded with (source text of the first argument of _setValue) and whether the statement
+    is followed by registry._cache.pop(changroup._name, None).  Never raises."""
     out = []
     try:
         cp = tree('plugins/Config/plugin.py')
@@ -568,13 +574,14 @@ def config_reset_sites():
                 if not isinstance(blk, list):
                     continue
                 for j, st in enumerate(blk):
-                    if isinstance(st, ast.Expr) and '_setValue(' in ast.unparse(st) and 'inherited=True' in ast.unparse(st):
+                    if isinstance(st, ast.Expr) and isinstance(st.value, ast.Call) and '_setValue(' in ast.unparse(st) and 'inherited=True' in ast.unparse(st):
                         nxt = ast.unparse(blk[j + 1]) if j + 1 < len(blk) else ''
-                        hits.append((st.lineno, nxt == 'registry._cache.pop(changroup._name, None)'))
+                        arg = ast.unparse(st.value.args[0]) if st.value.args else ''
+                        hits.append((st.lineno, (arg, nxt == 'registry._cache.pop(changroup._name, None)')))
         out = [h[1] for h in sorted(hits)]
     except Exception:
         out = []
-    return (out + [False, False, False])[:3]
+    return (out + [('', False)] * 3)[:3]
 
 
 def py_outs(p, d):
